@@ -121,6 +121,9 @@ def run(tier, seed, intensify=False):
     parts = core.pmap_chunks(_chunk, seed, 3000 * k, (tier, "main"))
     parts += core.pmap_chunks(_chunk, seed, 300 * k, (tier, "wide"))
     parts += core.pmap_chunks(_cli_chunk, seed, 100 * k, (tier, "cli"))
+    ns = core.merge_all(core.pmap_chunks(cluster.run_ns_cases, seed, 800 * k, (tier, "ns")))
+    ns.failures = [f for f in ns.failures if f["prop"] == "C18"]
+    parts.append(ns)
     return core.merge_all(parts)
 
 
